@@ -108,6 +108,58 @@ func (r *objectSetRemotePhaseReconciler) Teardown(
 	return false, nil
 }
 
+// SyncPaused hands the pause state of the ObjectSet to the ObjectSetPhase of the given phase,
+// if that ObjectSetPhase exists. It neither creates the ObjectSetPhase nor looks at its status.
+func (r *objectSetRemotePhaseReconciler) SyncPaused(
+	ctx context.Context, objectSet adapters.ObjectSetAccessor,
+	phase corev1alpha1.ObjectSetTemplatePhase,
+) error {
+	if len(phase.Class) == 0 {
+		return nil
+	}
+
+	objectSetPhase := r.newObjectSetPhase(r.scheme)
+	err := r.client.Get(ctx, client.ObjectKey{
+		Name:      objectSetPhaseName(objectSet, phase),
+		Namespace: objectSet.ClientObject().GetNamespace(),
+	}, objectSetPhase.ClientObject())
+	if errors.IsNotFound(err) {
+		return nil
+	}
+	if err != nil {
+		return fmt.Errorf("getting existing ObjectSetPhase: %w", err)
+	}
+	return r.setPaused(ctx, objectSetPhase, objectSet.IsSpecPaused())
+}
+
+// setPaused patches .spec.paused of the ObjectSetPhase, if it differs from the wanted state.
+func (r *objectSetRemotePhaseReconciler) setPaused(
+	ctx context.Context, objectSetPhase genericObjectSetPhase, paused bool,
+) error {
+	if objectSetPhase.IsPaused() == paused {
+		return nil
+	}
+
+	current := objectSetPhase.ClientObject()
+	patch := map[string]any{
+		"metadata": map[string]any{
+			"resourceVersion": current.GetResourceVersion(),
+		},
+		"spec": map[string]any{
+			"paused": paused,
+		},
+	}
+	patchJSON, err := json.Marshal(patch)
+	if err != nil {
+		panic(err)
+	}
+	if err := r.client.Patch(
+		ctx, current, client.RawPatch(types.MergePatchType, patchJSON)); err != nil {
+		return fmt.Errorf("patching ObjectSetPhase: %w", err)
+	}
+	return nil
+}
+
 func (r *objectSetRemotePhaseReconciler) Reconcile(
 	ctx context.Context, objectSet adapters.ObjectSetAccessor,
 	phase corev1alpha1.ObjectSetTemplatePhase,
@@ -148,24 +200,8 @@ func (r *objectSetRemotePhaseReconciler) Reconcile(
 	objectSet.SetRemotePhases(addRemoteObjectSetPhase(remotes, ref))
 
 	// Pause/Unpause
-	if currentObjectSetPhase.IsPaused() != desiredObjectSetPhase.IsPaused() {
-		current := currentObjectSetPhase.ClientObject()
-		patch := map[string]any{
-			"metadata": map[string]any{
-				"resourceVersion": current.GetResourceVersion(),
-			},
-			"spec": map[string]any{
-				"paused": desiredObjectSetPhase.IsPaused(),
-			},
-		}
-		patchJSON, err := json.Marshal(patch)
-		if err != nil {
-			panic(err)
-		}
-		if err := r.client.Patch(
-			ctx, current, client.RawPatch(types.MergePatchType, patchJSON)); err != nil {
-			return nil, controllers.ProbingResult{}, fmt.Errorf("patching ObjectSetPhase: %w", err)
-		}
+	if err := r.setPaused(ctx, currentObjectSetPhase, desiredObjectSetPhase.IsPaused()); err != nil {
+		return nil, controllers.ProbingResult{}, err
 	}
 
 	// ObjectSetPhase already exists
